@@ -420,6 +420,14 @@ def gen_accept_case(rng):
     cmask = rng.choice(MASK_KINDS + ["A", "A"])
     if pmask == "A" and rng.random() < 0.35:
         cmask = "Aobj"   # the producer's mask array itself, declared by a consumer that may be laid out differently
+    if rng.random() < 0.08:
+        # masks of different rank that numpy would broadcast onto each other: a producer mask that is constant along
+        # its leading axes, a grid-less consumer declaring the 1-D profile
+        n = rng.randint(2, 4)
+        dims = [n] * rng.choice([2, 2, 3])
+        ls = rng.choice(list(gu.layouts(len(dims))))
+        prod = cons = gu.make_spec("uniform", dims, ls[0], ls[1], ls[2], loc)
+        grids, pmask, cmask = rng.choice(["cons-none", "none"]), "R", "Rlow"
     return {"type": "accept", "prod": prod, "cons": cons, "grids": grids, "pmask": pmask, "cmask": cmask,
             "via": rng.choice(["accepts", "accepts", "link"])}
 
@@ -444,6 +452,13 @@ def all_accept_cases():
                     for via in ("accepts", "link"):
                         yield {"type": "accept", "prod": prod, "cons": cons, "grids": grids, "pmask": pm, "cmask": cm,
                                "via": via}
+    for dims in ([3, 3], [2, 2], [4, 4], [3, 3, 3], [2, 2, 2]):
+        for ls in gu.layouts(len(dims)):
+            g = gu.make_spec("uniform", dims, ls[0], ls[1], ls[2], "points")
+            for grids in ("cons-none", "none"):
+                for cm in ("Rlow", "R"):
+                    for via in ("accepts", "link"):
+                        yield {"type": "accept", "prod": g, "cons": g, "grids": grids, "pmask": "R", "cmask": cm, "via": via}
 
 
 def accept_setup(case):
@@ -463,6 +478,12 @@ def accept_setup(case):
             arr = np.zeros(shp, dtype=bool)
         elif kind == "full":
             arr = np.ones(shp, dtype=bool)
+        elif kind in ("R", "Rlow"):
+            # constant along all axes but the last one of the producer's shape; "Rlow" is the 1-D profile itself
+            n = shp_p[-1]
+            prof = np.array([(j * 2 + 1) % 3 < 1 for j in range(n)], dtype=bool)
+            prof[0], prof[-1] = True, False
+            arr = prof.copy() if kind == "Rlow" else np.broadcast_to(prof, shp_p).copy()
         elif kind == "Aobj":
             # the consumer declares the producer's mask *array* as it is (same numbers, same object when the shapes
             # agree) although its grid may be laid out differently: physically another set of cells
